@@ -221,6 +221,8 @@ pub struct ExploreResult {
     pub budget_hit: bool,
     /// the number of scheduling points per thread differed between executions
     pub points_vary: bool,
+    /// (bound, estimated schedules) of the first bound that was not attempted because it would not fit the budget
+    pub skipped_bound_estimate: Option<(u32, u64)>,
 }
 
 /// Iterative context bounding. `make` builds fresh thread bodies for one execution; `check` judges the execution
@@ -232,10 +234,25 @@ pub fn explore(
     make: &dyn Fn() -> Vec<Box<dyn FnOnce() + Send + 'static>>,
     check: &dyn Fn(&Execution) -> Result<u64, String>,
 ) -> ExploreResult {
-    let mut res = ExploreResult { executions: 0, completed_bound: None, executions_per_bound: Vec::new(), points_total: 0, per_thread_points: Vec::new(), failure: None, machinery_error: None, distinct_outcomes: 0, budget_hit: false, points_vary: false };
+    let mut res = ExploreResult { executions: 0, completed_bound: None, executions_per_bound: Vec::new(), points_total: 0, per_thread_points: Vec::new(), failure: None, machinery_error: None, distinct_outcomes: 0, budget_hit: false, points_vary: false, skipped_bound_estimate: None };
     let mut outcomes = std::collections::BTreeSet::new();
     for bound in 0..=max_bound {
         let before = res.executions;
+        // do not start a bound that cannot be completed within the budget: roughly sum_{i<=b} C(P,i) (threads-1)^i schedules
+        if bound >= 1 && res.points_total > 0 {
+            let p = res.points_total as f64;
+            let alt = (res.per_thread_points.len().max(2) - 1) as f64;
+            let mut est = 0.0;
+            let mut term = 1.0;
+            for i in 1..=bound {
+                term = term * (p - (i as f64 - 1.0)).max(1.0) / i as f64 * alt;
+                est += term;
+            }
+            if est * 0.5 > (max_executions.saturating_sub(res.executions)) as f64 {
+                res.skipped_bound_estimate = Some((bound, est as u64));
+                break;
+            }
+        }
         let mut stack: Vec<Vec<usize>> = vec![Vec::new()];
         let mut complete = true;
         while let Some(prefix) = stack.pop() {
